@@ -488,6 +488,21 @@ std::unique_ptr<SyncWritableMetricStorage> Meter::RegisterSyncMetricStorage(
         }
         auto multi_storage = static_cast<SyncMultiMetricStorage *>(storages.get());
 
+        // One entry per metric stream: several views may match one instrument. The instrument
+        // type and value type are part of the key, so an entry found for it is a
+        // SyncMetricStorage for the same kind of instrument.
+        const std::string key = instrument_descriptor.name_ + '\0' + view_instr_desc.name_ + '\0' +
+                                std::to_string(static_cast<int>(instrument_descriptor.type_)) + '\0' +
+                                std::to_string(static_cast<int>(instrument_descriptor.value_type_));
+        auto existing = storage_registry_.find(key);
+        if (existing != storage_registry_.end())
+        {
+          // The instrument was created before: its handles share one storage. Replacing the
+          // registered storage would orphan what was recorded through the earlier handle.
+          multi_storage->AddStorage(std::static_pointer_cast<SyncMetricStorage>(existing->second));
+          return true;
+        }
+
         auto storage = std::shared_ptr<SyncMetricStorage>(new SyncMetricStorage(
             view_instr_desc, view.GetAggregationType(), &view.GetAttributesProcessor(),
 #ifdef ENABLE_METRICS_EXEMPLAR_PREVIEW
@@ -496,8 +511,7 @@ std::unique_ptr<SyncWritableMetricStorage> Meter::RegisterSyncMetricStorage(
                                  instrument_descriptor),
 #endif
             view.GetAggregationConfig()));
-        // One entry per metric stream: several views may match one instrument.
-        storage_registry_[instrument_descriptor.name_ + '\0' + view_instr_desc.name_] = storage;
+        storage_registry_[key] = storage;
         multi_storage->AddStorage(storage);
         return true;
       });
